@@ -209,13 +209,21 @@ def _cli(ctx, case):
     if fcfg["salt"].startswith("-") or fcfg["salt"] == "":
         fcfg["salt"] = "s" + fcfg["salt"]
     rng = random.Random(case["lseed"])
+    private = rng.random() < 0.4
+    if private:
+        fcfg["pa"] = list(fcfg.get("pa") or []) + list(ipgen.RFC1918)
     lns = case.get("lines") or gen_ip_lines(rng, fcfg, case["nlines"], near=False)
     text = "".join(lines.text_of(s) + "\n" for s in lns)
     with tempfile.TemporaryDirectory(dir=os.path.join(load.VERIF, ".work")) as d:
         src = os.path.join(d, "in.cfg")
         with open(src, "w", encoding="utf-8") as f:
             f.write(text)
-        common = cli_ip_args(fcfg) + ["--preserve-host-bits", str(B)]
+        if private:
+            explicit = [a for a in fcfg["pa"] if a not in ipgen.RFC1918]
+            common = cli_ip_args(dict(fcfg, pa=explicit)) + ["--preserve-private-addresses", "--preserve-host-bits", str(B)]
+            ctx.count("cli_roundtrips_with_private_flag")
+        else:
+            common = cli_ip_args(fcfg) + ["--preserve-host-bits", str(B)]
         p1 = run_cli(["-a", "-i", src, "-o", os.path.join(d, "anon.cfg")] + common, case["hs"][0])
         p2 = run_cli(["-u", "-i", os.path.join(d, "anon.cfg"), "-o", os.path.join(d, "back.cfg")] + common, case["hs"][1])
         ctx.count("cli_child_processes", 2)
